@@ -3,6 +3,7 @@ from __future__ import annotations
 
 import collections
 import contextlib
+import json
 import logging
 import pathlib
 import tempfile
@@ -62,83 +63,15 @@ RULE = ("layouts as in C13 (up to 6 volumes x 1..9 slices); batch 1..8; world 1.
         "non-trivial = at least 2 volumes and some volume split over >= 2 batches (or a malformed stream); distinct = distinct "
         "protocol line")
 PENDING_FINDINGS: list[str] = []
+_RECON_CASES: dict = {}      # protocol line -> replayable description (well-formed streams), for `search`
+_PREDICT_CASES: dict = {}
 
 logging.getLogger("direct").setLevel(logging.ERROR)
 
 
 # --------------------------------------------------------------------------------------------------
-def fname(v: int) -> str:
-    return f"vol_{v:02d}.h5"
-
-
-def fid(p) -> int:
-    return int(pathlib.Path(p).stem.split("_")[1])
-
-
-class MarkerDataset(torch.utils.data.Dataset):
-    """dataset whose items carry an identifiable marker image of (volume, slice); `data[i]` is the marker of item i
-    (volumes may have different spatial shapes); `recon[v]` = (x, y) header reconstruction size of volume v or None"""
-
-    def __init__(self, layout, data, scales, recon=None):
-        self.ndim = 2
-        self.volume_indices = collections.OrderedDict()
-        self.items = []
-        off = 0
-        for v, n in enumerate(layout):
-            self.volume_indices[pathlib.Path(fname(v))] = range(off, off + n)
-            self.items += [(v, s) for s in range(n)]
-            off += n
-        self.data, self.scales, self.recon = data, scales, recon
-
-    def __len__(self):
-        return len(self.items)
-
-    def __getitem__(self, i):
-        v, s = self.items[i]
-        m = self.data[i]
-        h, w = m.shape[0], m.shape[1]
-        item = {"filename": fname(v), "slice_no": s, "scaling_factor": torch.tensor(self.scales[i], dtype=torch.float32),
-                "marker": m.clone(), "target": torch.zeros(h, w), "sensitivity_map": torch.ones(1, h, w, 2),
-                "sampling_mask": torch.ones(1, h, w, 1)}
-        if self.recon is not None:
-            item["reconstruction_size"] = (self.recon[v][0], self.recon[v][1], 1)
-        return item
-
-
-_ENGINE = None
-
-
-def engine():
-    global _ENGINE
-    if _ENGINE is None:
-        from direct.config.defaults import DefaultConfig
-        from direct.nn.mri_models import MRIModelEngine
-        from omegaconf import OmegaConf
-
-        class ToyEngine(MRIModelEngine):
-            def forward_function(self, data):
-                return data["marker"], None
-
-        _ENGINE = ToyEngine(OmegaConf.structured(DefaultConfig), torch.nn.Linear(1, 1), "cpu")
-        _ENGINE.ndim = 2
-        # reconstruct_volumes calls gc.collect() for every batch; with torch & co. imported a full collection costs
-        # ~50 ms.  Freezing the objects that exist now keeps those calls cheap (no effect on what the code computes).
-        import gc
-        gc.collect()
-        gc.freeze()
-    return _ENGINE
-
-
-@contextlib.contextmanager
-def patched_comm(rank: int, world: int):
-    import direct.utils.communication as comm
-
-    old = comm.get_rank, comm.get_world_size
-    comm.get_rank, comm.get_world_size = (lambda: rank), (lambda: world)
-    try:
-        yield
-    finally:
-        comm.get_rank, comm.get_world_size = old
+from props import c14_cases as cases  # noqa: E402
+from props.c14_cases import MarkerDataset, engine, fid, fname, patched_comm  # noqa: E402,F401
 
 
 def _int_list(t: torch.Tensor):
@@ -151,9 +84,9 @@ def _int_list(t: torch.Tensor):
 CROP_ARG = {0: None, 1: "header", 2: "foo", 3: ""}
 
 
-def run_predict(layout, world, rank, bs, workers, data, scales, recon, crop=None):
+def run_predict(layout, world, rank, bs, workers, data, scales, recon, crop=None, slice_nos=None, cplx=False):
     """the REAL Engine.predict; returns the list it returns: [(volume, loss dict, filename)]"""
-    ds = MarkerDataset(layout, data, scales, recon=recon)
+    ds = MarkerDataset(layout, data, scales, recon=recon, slice_nos=slice_nos, cplx=cplx)
     with patched_comm(rank, world), tempfile.TemporaryDirectory() as d:
         return engine().predict(ds, pathlib.Path(d), checkpoint=None, num_workers=workers, batch_size=bs, crop=crop)
 
@@ -221,8 +154,11 @@ def expected_volumes(layout, data, nums, dens, recon, cplx):
 
 
 # --------------------------------------------------------------------------------------------------
+LOSS_UNIT = 2520      # lcm(1..10): the mean over up to 10 loss dicts of multiples of it is an integer
+
+
 class FakeLoader:
-    """what reconstruct_volumes reads from a loader, with hand-made batches"""
+    """what reconstruct_volumes reads from a loader, with hand-made batches (fnames, outs, targets[, slice_nos])"""
 
     def __init__(self, table, batches):
         vi = collections.OrderedDict((pathlib.Path(fname(f)), range(0, n)) for f, n in table)
@@ -231,38 +167,60 @@ class FakeLoader:
         self.batches = batches
 
     def __iter__(self):
-        for fns, outs, tgts in self.batches:
+        for bt in self.batches:
+            fns, outs, tgts = bt[0], bt[1], bt[2]
+            snos = bt[3] if len(bt) > 3 else list(range(len(fns)))
             b = len(fns)
             one = torch.ones(b, 3, 3)
             yield {"filename": [fname(f) for f in fns], "scaling_factor": torch.ones(b),
+                   "slice_no": torch.tensor(snos, dtype=torch.int64),
                    "marker": one * torch.tensor(outs, dtype=torch.float32).reshape(b, 1, 1),
                    "target": one * torch.tensor(tgts, dtype=torch.float32).reshape(b, 1, 1),
                    "sensitivity_map": torch.ones(b, 1, 3, 3, 2), "sampling_mask": torch.ones(b, 1, 3, 3, 1)}
 
 
-def run_recon(table, batches):
-    """the REAL reconstruct_volumes over hand-made batches; ([(fid, outs, targets)], error name or None)"""
-    gen = engine().reconstruct_volumes(FakeLoader(table, batches), add_target=True, crop=None)
+def batch_loss(source, target, reduction="mean", reconstruction_size=None):
+    """identifies the batch: LOSS_UNIT x (marker of its first element)"""
+    return (LOSS_UNIT * source.reshape(source.shape[0], -1)[0, 0]).reshape(1)
+
+
+def run_recon(table, batches, losses=False):
+    """the REAL reconstruct_volumes over hand-made batches; ([(fid, outs, targets[, mean loss])], error name or None)"""
+    gen = engine().reconstruct_volumes(FakeLoader(table, batches), loss_fns={"batch_loss": batch_loss} if losses else None,
+                                       add_target=True, crop=None)
     ys, err = [], None
     try:
-        for vol, tgt, _loss, fn in gen:
+        for vol, tgt, loss, fn in gen:
             for t in (vol, tgt):
                 if not torch.equal(t, t[:, :1, :1, :1].expand_as(t)):
                     raise ArithmeticError("slice is not constant")
-            ys.append((fid(fn), _int_list(vol[:, 0, 0, 0]), _int_list(tgt[:, 0, 0, 0])))
-    except (ValueError, KeyError, RuntimeError) as e:
+            y = (fid(fn), _int_list(vol[:, 0, 0, 0]), _int_list(tgt[:, 0, 0, 0]))
+            if losses:
+                y = y + (_int_list(loss["batch_loss"]),)
+            ys.append(y)
+    except (ValueError, KeyError, RuntimeError, IndexError) as e:
         err = err_name(e)
     return ys, err
 
 
-_ERR_CODE = {"ValueError": 1, "KeyError": 2, "RuntimeError": 3}
+_ERR_CODE = {"ValueError": 1, "KeyError": 2, "RuntimeError": 3, "IndexError": 4}
 
 
 def _fmt_recon(ys, err):
-    groups = [ints([f, len(o)] + o + t) for f, o, t in ys]
+    groups = [ints([y[0], len(y[1])] + y[1] + y[2] + (y[3] if len(y) > 3 else [])) for y in ys]
     if err:
         groups.append(ints([-1, _ERR_CODE[err]]))
     return ("ok " + " | ".join(groups)).strip()
+
+
+def window_order(rng, n, k):
+    """a delivery order of batches 0..n-1 by a loader with k batches in flight (Recon.windowOrders)"""
+    infl, rest, out = list(range(min(k, n))), list(range(min(k, n), n)), []
+    while infl:
+        out.append(infl.pop(rng.randrange(len(infl))))
+        if rest:
+            infl.append(rest.pop(0))
+    return out
 
 
 def _split(rng, n, max_piece):
@@ -279,6 +237,8 @@ def _catch(fn):
     def run():
         try:
             return fn()
+        except ArithmeticError:
+            return "err Inexact"
         except (ValueError, TypeError, IndexError, KeyError, RuntimeError, AssertionError) as e:
             return "err " + err_name(e)
     return run
@@ -316,7 +276,7 @@ def correspondence(ctx: Ctx):
                "nontrivial": b >= 2, "bucket": "process/" + ("complex" if cplx else "real") + ("/nocrop" if res is None else
                                                                                                 "/crop-odd" if odd else "/crop")}
 
-    # ---- the raw assembly loop: arbitrary splits and malformed streams
+    # ---- the raw assembly loop: arbitrary splits, arbitrary `slice_no`, loss dicts, malformed / reordered streams
     for _ in range(ctx.budget(300, 3000)):
         nv = rng.randint(1, 5)
         sizes = [rng.randint(1, 9) for _ in range(nv)]
@@ -324,30 +284,37 @@ def correspondence(ctx: Ctx):
         table = list(zip(ids, sizes))
         batches, marker = [], 1
         multi = False
+        sno_policy = rng.choice(("pos", "offset", "reversed", "garbage", "constant"))
         for f, n in table:
             pieces = _split(rng, n, rng.randint(1, 8))
             multi = multi or len(pieces) > 1
+            off = rng.randint(1, 6)
+            pos = 0
             for p in pieces:
                 outs = list(range(marker, marker + p))
-                batches.append(([f] * p, outs, [1000 + o for o in outs]))
+                snos = {"pos": list(range(pos, pos + p)), "offset": list(range(pos + off, pos + off + p)),
+                        "reversed": [n - 1 - x for x in range(pos, pos + p)], "constant": [0] * p,
+                        "garbage": [rng.randint(-3, 40) for _ in range(p)]}[sno_policy]
+                batches.append(([f] * p, outs, [1000 + o for o in outs], snos))
                 marker += p
+                pos += p
         kind = "well-formed"
-        if rng.random() < 0.4 and batches:
+        if rng.random() < 0.5 and batches:
             kind = rng.choice(["mixed-batch", "unknown-file", "overflow", "extra-single", "repeat-volume", "drop-batch",
-                               "swap-batches", "aba", "short-table"])
+                               "swap-batches", "aba", "short-table", "window-2", "window-3", "volume-order", "interleave"])
             j = rng.randrange(len(batches))
             if kind == "mixed-batch":
-                fns, o, t = batches[j]
-                batches[j] = (fns + [rng.choice(ids) if nv > 1 and rng.random() < 0.7 else 99], o + [777], t + [888])
+                fns, o, t, sn = batches[j]
+                batches[j] = (fns + [rng.choice(ids) if nv > 1 and rng.random() < 0.7 else 99], o + [777], t + [888], sn + [0])
             elif kind == "unknown-file":
-                batches.insert(j, ([50], [5], [6]))
+                batches.insert(j, ([50], [5], [6], [0]))
             elif kind == "overflow":
-                fns, o, t = batches[j]
+                fns = batches[j][0]
                 k = rng.randint(2, 3)
-                batches.insert(j + 1, ([fns[0]] * k, [900 + i for i in range(k)], [950 + i for i in range(k)]))
+                batches.insert(j + 1, ([fns[0]] * k, [900 + i for i in range(k)], [950 + i for i in range(k)], list(range(k))))
             elif kind == "extra-single":
-                fns, o, t = batches[j]
-                batches.insert(j + 1, ([fns[0]], [901], [951]))
+                fns = batches[j][0]
+                batches.insert(j + 1, ([fns[0]], [901], [951], [0]))
             elif kind == "repeat-volume":
                 batches = batches + batches[: rng.randint(1, len(batches))]
             elif kind == "drop-batch":
@@ -359,15 +326,35 @@ def correspondence(ctx: Ctx):
                 batches = batches + [b for b in batches if b[0][0] == ids[0]]
             elif kind == "short-table":
                 table = [(f, max(1, n - 1)) for f, n in table]
+            elif kind in ("window-2", "window-3"):          # a loader with 2 / 3 batches in flight (in_order=False)
+                batches = [batches[i] for i in window_order(rng, len(batches), int(kind[-1]))]
+            elif kind == "volume-order":                    # whole volumes in another order: tolerated
+                order = ids[:]
+                rng.shuffle(order)
+                batches = [b for f in order for b in batches if b[0][0] == f]
+            elif kind == "interleave" and nv >= 2:
+                per = [[b for b in batches if b[0][0] == f] for f in ids]
+                batches = [b for grp in zip(*[p + [None] * (max(map(len, per)) - len(p)) for p in per]) for b in grp if b]
+        losses = rng.random() < 0.6
+        n_alloc_bound = len(batches)
+        if losses and n_alloc_bound > 10 and kind not in ("well-formed", "volume-order"):
+            losses = False                       # keep mean(loss list) an integer: at most 10 entries
         flat_table = [x for fn_ in table for x in fn_]
         groups = []
-        for fns, o, t in batches:
-            groups += [fns, o + t]
+        for fns, o, t, sn in batches:
+            groups += [fns, o + t, sn + [LOSS_UNIT * o[0] if losses else 0]]
 
-        def impl(table=table, batches=batches):
-            return _fmt_recon(*run_recon(table, batches))
-        yield {"line": line("recon", flat_table, *groups), "impl": _catch(impl),
-               "nontrivial": (nv >= 2 and multi) or kind != "well-formed", "bucket": "recon/" + kind}
+        def impl(table=table, batches=batches, losses=losses):
+            ys, err = run_recon(table, batches, losses=losses)
+            if not losses:
+                ys = [y + ([0],) for y in ys]
+            return _fmt_recon(ys, err)
+        ln = line("recon2", flat_table, *groups)
+        if kind in ("well-formed", "volume-order"):
+            _RECON_CASES[ln] = {"op": "recon-stream", "table": [list(x) for x in table], "losses": losses,
+                                "batches": [[list(x) for x in b] for b in batches]}
+        yield {"line": ln, "impl": _catch(impl),
+               "nontrivial": (nv >= 2 and multi) or kind != "well-formed", "bucket": f"recon/{kind}/slice_no={sno_policy}"}
 
     # ---- resolution read from the batch's reconstruction_size + _process_output (what the loop does per batch)
     from direct.nn.mri_models import _compute_resolution
@@ -481,10 +468,25 @@ def correspondence(ctx: Ctx):
         write = int(rng.random() < 0.35)
         data, nums, dens = make_data(rng, layout, hs, ws, cplx)
         scales = [n / d for n, d in zip(nums, dens)]
+        # what the items report as `slice_no`: the position in the volume, or file coordinates (offset / stride / gaps /
+        # a permutation / constant / global index).  A third of the cases run on a REAL H5SliceData with a `slice_data`
+        # filter: the h5 files hold `pad_lo + n + pad_hi` slices of which the filter keeps the n of the layout.
+        source = "h5" if workers == 0 and rng.random() < 0.3 else "toy"
+        if source == "h5":
+            lo, st = rng.choice([(0, 1), (1, 1), (2, 1), (3, 1), (0, 2), (1, 2)])
+            snos = [lo + st * k for n in layout for k in range(n)]
+            policy = f"h5[{lo}::{st}]"
+        else:
+            lo = st = 0
+            policy = rng.choice(cases.SLICE_POLICIES)
+            snos = cases.make_slice_nos(layout, policy, rng.randrange(2 ** 30))
 
         def impl(layout=layout, world=world, rank=rank, bs=bs, workers=workers, data=data, scales=scales, recon=recon,
-                 crop=crop, write=write):
-            out = run_predict(layout, world, rank, bs, workers, data, scales, recon, CROP_ARG[crop])
+                 crop=crop, write=write, snos=snos, cplx=cplx, source=source, lo=lo, st=st):
+            if source == "h5":
+                out = run_predict_h5(layout, world, rank, bs, data, scales, recon, CROP_ARG[crop], cplx, lo, st)
+            else:
+                out = run_predict(layout, world, rank, bs, workers, data, scales, recon, CROP_ARG[crop], slice_nos=snos, cplx=cplx)
             if not write:
                 return ("ok " + " | ".join(_fmt_vol(fid(o[-1]), o[0][:, 0]) for o in out)).strip()
             with tempfile.TemporaryDirectory() as d:
@@ -496,11 +498,55 @@ def correspondence(ctx: Ctx):
             return ("ok " + " | ".join(_fmt_vol(f, a) for f, _k, _d, a in files)).strip()
         split = any(n > bs for n in layout)
         flat = [int(x) for t in data for x in t.reshape(-1).tolist()]
-        yield {"line": line("predict", layout, [world, rank, bs], [int(cplx), crop, write], hs, ws,
-                            [r[0] for r in recon] if recon else [], [r[1] for r in recon] if recon else [], nums, dens, flat),
-               "impl": _catch_all(impl), "nontrivial": len(layout) >= 2 and split,
-               "bucket": f"predict/world={world}/workers={workers}/crop={CROP_ARG[crop]!r}" + ("/h5" if write else "")
+        ln = line("predict", layout, [world, rank, bs], [int(cplx), crop, write], hs, ws,
+                  [r[0] for r in recon] if recon else [], [r[1] for r in recon] if recon else [], nums, dens, flat, snos)
+        _PREDICT_CASES[ln] = {"op": "predict-line", "layout": layout, "world": world, "rank": rank, "bs": bs, "workers": workers,
+                              "cplx": cplx, "crop": crop, "hs": hs, "ws": ws, "recon": recon, "nums": nums, "dens": dens,
+                              "snos": snos, "source": source, "lo": lo, "st": st, "flat": flat}
+        yield {"line": ln, "impl": _catch_all(impl), "nontrivial": len(layout) >= 2 and split,
+               "bucket": f"predict/world={world}/workers={workers}/crop={CROP_ARG[crop]!r}/slice_no={policy}" + ("/h5" if write else "")
                          + ("" if same_shape else "/mixed-shapes")}
+
+    # ---- delivery orders of a REAL DataLoader(in_order=False) are orders of the window model (Recon.windowOrders)
+    for c in range(ctx.budget(3, 12)):
+        w, pf = [(2, 1), (2, 2), (3, 1), (1, 2)][c % 4]
+        n = rng.randint(4, 8)
+        got = loader_delivery(w, pf, n, rng.randrange(2 ** 20))
+        yield {"line": line("inwindow", [w * pf], got), "impl": (lambda: "ok 1"), "nontrivial": got != sorted(got),
+               "bucket": f"inwindow/workers={w}/prefetch={pf}/" + ("in-order" if got == sorted(got) else "reordered")}
+
+
+def loader_delivery(workers, prefetch, n, seed):
+    """order in which a real DataLoader(in_order=False) hands over n single-item batches whose items take random time"""
+    from torch.utils.data import DataLoader
+
+    ds = SlowDataset([n], seed)
+    dl = DataLoader(ds, batch_sampler=[[i] for i in range(n)], num_workers=workers, prefetch_factor=prefetch, in_order=False)
+    return [int(b["index"][0]) for b in dl]
+
+
+def run_predict_h5(layout, world, rank, bs, data, scales, recon, crop, cplx, lo, st):
+    """REAL H5SliceData with `slice_data=slice(lo, None, st)` over temporary h5 files that hold more slices than the filter
+    keeps, through the REAL Engine.predict.  The kept slices of file v are exactly the items of volume v of `layout`, in
+    order; their `slice_no` is the index in the file (lo + st*k), not the position k in the volume."""
+    with tempfile.TemporaryDirectory() as d:
+        root = pathlib.Path(d)
+        sub = root / "files"
+        sub.mkdir()
+        file_layout, fdata, fscales, off = [], [], [], 0
+        for v, n in enumerate(layout):
+            total = lo + st * (n - 1) + 1 + (v % st if st > 1 else 0)       # slices past the last kept one are not kept
+            file_layout.append(total)
+            filler = torch.full_like(data[off], -7.0)
+            for s in range(total):
+                k, r = divmod(s - lo, st)
+                keep = s >= lo and r == 0 and k < n
+                fdata.append(data[off + k] if keep else filler)
+                fscales.append(scales[off + k] if keep else 1.0)
+            off += n
+        ds = cases.build_h5_dataset(sub, file_layout, fdata, fscales, recon, cplx, (lo, None, st))
+        with patched_comm(rank, world):
+            return engine().predict(ds, root, checkpoint=None, num_workers=0, batch_size=bs, crop=crop)
 
 
 def _catch_all(fn):
@@ -672,11 +718,125 @@ def _empty_volume_note(ctx: Ctx):
     return report
 
 
+def check_predict_line(c):
+    """The property for the configuration of a `predict` correspondence line, on every rank (independent reference).
+    Yields (key, what, observed)."""
+    layout, world, cplx = c["layout"], c["world"], c["cplx"]
+    data, pos = [], 0
+    for v, n in enumerate(layout):
+        h, w = c["hs"][v], c["ws"][v]
+        k = h * w * (2 if cplx else 1)
+        for _ in range(n):
+            t = torch.tensor(c["flat"][pos:pos + k], dtype=torch.float64).reshape((h, w, 2) if cplx else (h, w))
+            data.append(t if cplx else t.float())
+            pos += k
+    scales = [n / d for n, d in zip(c["nums"], c["dens"])]
+    crop = CROP_ARG[c["crop"]]
+    exp = expected_volumes(layout, data, c["nums"], c["dens"], c["recon"] if crop == "header" else None, cplx)
+    seen = []
+    for rank in range(world):
+        try:
+            if c["source"] == "h5":
+                out = run_predict_h5(layout, world, rank, c["bs"], data, scales, c["recon"], crop, cplx, c["lo"], c["st"])
+            else:
+                out = run_predict(layout, world, rank, c["bs"], c["workers"], data, scales, c["recon"], crop,
+                                  slice_nos=c["snos"], cplx=cplx)
+        except Exception as e:  # noqa: BLE001
+            yield ("predict-raises", f"predict raises {err_name(e)} on rank {rank} of {world}: {str(e)[:160]}",
+                   {"rank": rank, "err": repr(e)[:300]})
+            continue
+        for vol, _loss, fn in out:
+            f = fid(fn)
+            seen.append(f)
+            e = exp.get(f)
+            if e is None or tuple(vol.shape) != tuple(e.shape):
+                yield ("predict-volume-shape", f"volume {f}: shape {tuple(vol.shape)}, expected "
+                       f"{None if e is None else tuple(e.shape)}", {"rank": rank, "volume": f})
+            elif not torch.equal(vol.double(), e):
+                bad = [k for k in range(e.shape[0]) if not torch.equal(vol[k].double(), e[k])]
+                yield ("predict-slice-wrong", f"volume {f}: slices {bad} are not model output x scaling factor (cropped)",
+                       {"rank": rank, "volume": f, "bad_slices": bad, "observed": vol[:, 0, 0, 0].tolist(),
+                        "expected": e[:, 0, 0, 0].tolist()})
+    if seen != list(range(len(layout))):
+        missing = [v for v in range(len(layout)) if v not in seen]
+        dup = sorted({v for v in seen if seen.count(v) > 1})
+        key = "predict-volume-missing" if missing else "predict-volume-duplicated" if dup else "predict-volume-order"
+        yield (key, f"volumes yielded over all ranks: {seen} (expected each of 0..{len(layout) - 1} once, in order)", {"seen": seen})
+
+
+def check_recon_stream(c):
+    """The property on a well-formed hand-made batch stream (each volume's batches contiguous and in order): one tuple per
+    volume in delivery order, slices = the delivered slices in order, no exception."""
+    table = [tuple(x) for x in c["table"]]
+    batches = [tuple(b) for b in c["batches"]]
+    want, order = {}, []
+    for fns, o, t, *_ in batches:
+        f = fns[0]
+        if f not in want:
+            want[f] = ([], [])
+            order.append(f)
+        want[f][0].extend(o)
+        want[f][1].extend(t)
+    try:
+        ys, err = run_recon(table, batches, losses=c.get("losses", False))
+    except Exception as e:  # noqa: BLE001
+        yield ("recon-stream-raises", f"reconstruct_volumes raises {err_name(e)} on a well-formed stream: {str(e)[:160]}", {})
+        return
+    if err:
+        yield ("recon-stream-raises", f"reconstruct_volumes raises {err} on a well-formed stream", {"err": err})
+    got = [(y[0], y[1], y[2]) for y in ys]
+    exp = [(f, want[f][0], want[f][1]) for f in order]
+    if got != exp:
+        yield ("recon-stream-wrong", "reconstruct_volumes on a well-formed stream does not yield every volume once with its "
+               "slices (and targets) in delivery order", {"observed": got[:4], "expected": exp[:4]})
+
+
+def search(ctx: Ctx, dis, lean):
+    """failing-input search seeded with the disagreeing correspondence inputs: the property is evaluated directly (reference
+    independent of the model) on each of them"""
+    done = 0
+    for d in dis:
+        ln = d.get("line", "")
+        if ln in _PREDICT_CASES and not d.get("model", "").startswith("err"):
+            c, chk = _PREDICT_CASES[ln], check_predict_line
+        elif ln in _RECON_CASES:
+            c, chk = _RECON_CASES[ln], check_recon_stream
+        else:
+            continue
+        done += 1
+        if done > 40:
+            break
+        keys = set()
+        for key, what, obs in chk(c):
+            if key not in keys:
+                keys.add(key)
+                yield Violation(key, what, dict(c, key=key, observed=obs))
+
+
 def oracle(ctx: Ctx, deep: bool = False):
     """The property stated directly on the implementation (independent numpy/torch reference)."""
     rng = ctx.rng
-    n = 300 if deep else ctx.budget(60, 500)
-    nw = ctx.budget(4, 20)
+    # -- the generalised case space: dataset kind x slice_no x entry point x sampler x crop x output layout x history
+    ng = 600 if deep else ctx.budget(160, 1500)
+    nwk = 6 if deep else ctx.budget(3, 16)
+    for c in range(ng):
+        case = cases.random_case(rng, "slice_no" if c % 4 == 0 else None)
+        if c < nwk:
+            case.update(workers=1 + c % 2, world=min(case["world"], 2), layout=case["layout"][:3], hs=case["hs"][:3], ws=case["ws"][:3])
+            if case["recon"]:
+                case["recon"] = case["recon"][:3]
+        ctx.count(("case", json.dumps(case, sort_keys=True, default=str)),
+                  len(case["layout"]) >= 2 and any(x > case["bs"] for x in case["layout"]),
+                  sample={k: case[k] for k in ("ds", "entry", "history", "layout", "world", "bs", "slice_policy", "slice_filter")},
+                  bucket=cases.bucket_of(case))
+        keys = set()
+        for key, what, obs in cases.check_case(case):
+            if key in keys:
+                continue
+            keys.add(key)
+            yield Violation(key, what, dict(case, key=key, observed=obs))
+    n = 150 if deep else ctx.budget(30, 300)
+    nw = ctx.budget(3, 16)
     for c in range(n):
         layout = [rng.randint(1, 9) for _ in range(rng.randint(1, 6))]
         if rng.random() < 0.25:
@@ -723,6 +883,12 @@ def oracle(ctx: Ctx, deep: bool = False):
 
 def replay(rep: dict) -> bool:
     try:
+        if rep.get("op") == "case":
+            return any(k == rep.get("key") for k, _, _ in cases.check_case(rep))
+        if rep.get("op") == "predict-line":
+            return any(k == rep.get("key") for k, _, _ in check_predict_line(rep))
+        if rep.get("op") == "recon-stream":
+            return any(k == rep.get("key") for k, _, _ in check_recon_stream(rep))
         if rep.get("op") == "predict":
             return any(k == rep.get("key") for k, _, _ in _check_predict(
                 rep["layout"], rep["world"], rep["bs"], rep["workers"], rep["hs"], rep["ws"], rep["cplx"], rep["crop"], rep["seed"]))
